@@ -51,17 +51,18 @@ LReplace(ls, m, n)  == LET L == ParentOf(ls, m) s == ls[L + 1]
 \* ares_llist_node_mvparent_first / _last: node m leaves its list and becomes head / tail of list L
 LMoveFirst(ls, m, L) == LET d == Detach(ls, m) IN Out(Set(d, L, <<m>> \o d[L + 1]), R(NoVal, <<>>))
 LMoveLast(ls, m, L)  == LET d == Detach(ls, m) IN Out(Set(d, L, Append(d[L + 1], m)), R(NoVal, <<>>))
-\* ares_llist_clear: every node of L destroyed, first to last
-LClear(ls, L)       == Out(Set(ls, L, <<>>), R(NoVal, ls[L + 1]))
+\* ares_llist_clear: every node of L destroyed exactly once (order not documented: d compared sorted)
+Sorted(q)           == SortSeq(q, LAMBDA a, b : a < b)
+LClear(ls, L)       == Out(Set(ls, L, <<>>), R(NoVal, Sorted(ls[L + 1])))
 \* ares_llist_node_idx / first_val / last_val / len
 LIdx(ls, L, i)      == Out(ls, R(IF i < Len(ls[L + 1]) THEN ls[L + 1][i + 1] ELSE NoVal, <<>>))
 LFirstVal(ls, L)    == LIdx(ls, L, 0)
 LLastVal(ls, L)     == Out(ls, R(IF ls[L + 1] = <<>> THEN NoVal ELSE ls[L + 1][Len(ls[L + 1])], <<>>))
 LLen(ls, L)         == Out(ls, R(Len(ls[L + 1]), <<>>))
-\* both lists destroyed (list 0, then list 1)
+\* both lists destroyed
 Empty         == <<<<>>, <<>>>>
 \* (leak = library allocations of the history still live afterwards: none)
-LDestroy(ls)  == Out(Empty, [out |-> NoVal, d |-> ls[1] \o ls[2], leak |-> 0])
+LDestroy(ls)  == Out(Empty, [out |-> NoVal, d |-> Sorted(ls[1] \o ls[2]), leak |-> 0])
 LCreate       == Out(Empty, R(NoVal, <<>>))
 
 \* what the harness sees: forward (first/next) and backward (last/prev) iteration and len of
@@ -131,5 +132,5 @@ InsertLaw ==
 RemoveLaw ==
   [][ /\ op'.e \in {"claim", "destroy_node"} => Nodes(lists') = Nodes(lists) \ {op'.m}
       /\ op'.e = "replace" => Nodes(lists') = (Nodes(lists) \ {op'.m}) \cup {op'.n}
-      /\ op'.e = "clear" => lists'[op'.L + 1] = <<>> /\ lists'[2 - op'.L] = lists[2 - op'.L] /\ res'.d = lists[op'.L + 1] ]_vars
+      /\ op'.e = "clear" => lists'[op'.L + 1] = <<>> /\ lists'[2 - op'.L] = lists[2 - op'.L] /\ res'.d = Sorted(lists[op'.L + 1]) ]_vars
 =============================================================================
